@@ -14,7 +14,10 @@ import (
 	"golang.org/x/crypto/ssh/agent"
 )
 
+var h11Signers []ssh.Signer
+
 func H11_traces() {
+	h11Signers = nil
 	mwClock = vNondetI64("now")
 	vAssume(vAnd(mwClock >= 0, mwClock < 1<<62))
 	up := &mwUpstream{failAt: -1}
@@ -50,7 +53,7 @@ func H11_traces() {
 		case "List":
 			s.List()
 		case "Signers":
-			s.Signers()
+			h11Signers, _ = s.Signers()
 		case "Sign":
 			var k ssh.PublicKey = upc
 			if mem != nil && vChoose(2, "sign-mem") == 1 {
@@ -85,4 +88,19 @@ func H11_traces() {
 	vTraceCheckAtomic(ops[op], "shim.*")
 	vTraceEmit(ops[op])
 	vReach("C11.traced")
+	// signing through the signer the shim hands out for an in-memory hardware
+	// certificate is again an operation on the shim: it may not go around the
+	// shim's lock to the shared connection.  (Signers of the underlying
+	// agent's own identities are x/crypto's objects and are handed through as
+	// they are; they are not among the operations the statement quantifies over.)
+	for _, sg := range h11Signers {
+		if mem == nil || string(sg.PublicKey().Marshal()) != string(mwCertMarshal(mem)) {
+			continue
+		}
+		vTraceReset()
+		crashed = vCatch(func() { sg.Sign(nil, []byte("d")) })
+		vAssert(!crashed, "C11.operation-completes")
+		vTraceCheckAtomic("SignerSign", "shim.*")
+		vTraceEmit("SignerSign")
+	}
 }
